@@ -14,7 +14,7 @@ CLAIMED = {
    note="trusted: the reference model (a Python list), refavro.normal_eq for the documented normalisation; pure-Python modules only"),
  "C18": dict(cat="exploration", ref="DESIGN.md 4 (C18)",
    technique="deterministic simulation: real threads under a seeded baton-passing scheduler pre-empting at CPython switch points (sys.monitoring) inside fastavro; oracle = solo run",
-   text="2-3 caller threads run seeded operation lists on distinct streams sharing parsed schema objects; a seeded scheduler (uniform / sticky / PCT) decides every context switch at CPython 3.12 switch points in fastavro code, one seed = one exactly repeatable interleaving; each task's values, bytes and exception classes must equal those of its solo run; deadlock, stall and step-cap are violations. Seeded search over schedules, not enumeration.",
+   text="2-3 caller threads run seeded operation lists on distinct streams sharing parsed schema objects; a seeded scheduler (uniform / sticky / PCT) decides every context switch at CPython 3.12 switch points in fastavro code, one seed = one exactly repeatable interleaving; each task's values, bytes and exception classes must equal those of its solo run; deadlock, stall and step-cap are violations. Every execution works on fresh copies of the shared objects and one schedule in five runs in a fresh fork of a pristine process, so that first-use races (lazily built tables, per-schema caches) happen under the schedule. Seeded search over schedules, not enumeration.",
    note="trusted: sys.monitoring event delivery as a sound subset of real switch points (calls to C types emit no event); solo run as reference; CPython 3.12.1 with GIL; pure-Python modules only"),
  "C03": dict(cat="fault_enumeration", ref="DESIGN.md 4 (C03)",
    technique="deterministic simulation: independent foreign writer with seeded legal layout freedom feeding a read-only simulated input; enumerated stored-byte faults (every truncation point, every out-of-range index at every index site)",
@@ -34,7 +34,7 @@ CLAIMED = {
    note="trusted: refavro as peer and oracle (it parses all Java-written fixtures of the test suite); deflate trailing bytes tolerated and counted"),
  "C17": dict(cat="exploration", ref="DESIGN.md 4 (C17)",
    technique="deterministic simulation: seeded call histories (including failing calls and shared objects) in one long-lived process versus the same call's dependency slice in a pristine forked interpreter; before/after snapshots of arguments",
-   text="Seeded histories of 5-60 public calls over schema families that reuse type names with different definitions, shared raw/parsed schema objects, shared named-schema dictionaries, Writer handles and failing calls are executed in one process; for each checked call only its dependency slice is re-evaluated in a pristine forked interpreter and value, stream bytes and exception class must agree; every schema and datum argument is snapshotted before and after each call. Seeded sampling of histories.",
+   text="Seeded histories of 5-60 public calls over schema families that reuse type names with different definitions, shared raw/parsed schema objects, shared named-schema dictionaries, Writer handles and failing calls are executed in one process of their own (a fresh fork per history); for each checked call only its dependency slice is re-evaluated in another pristine forked interpreter and value, stream bytes and exception class must agree; every schema and datum argument is snapshotted before and after each call. Seeded sampling of histories.",
    note="trusted: fork of a process that imported but never called fastavro stands for a fresh interpreter (sampled against real subprocess interpreters in the self-test); the slicing rule (object-level data flow incl. named-schema dictionaries)"),
  "C19": dict(cat="exploration", ref="DESIGN.md 4 (C19)",
    technique="deterministic simulation: schema storage behind the repository seam (real directory and in-memory repository), seeded dependency graphs and delivery orders, complete single-fault enumeration (any one file missing)",
@@ -90,7 +90,7 @@ def main():
                      "kind_free_text": "deterministic simulation with fault injection: seeded Choices -> simulated streams / storage / scheduler (sys.monitoring baton-passing threads) / history engine; independent peer+oracle refavro; fork pool; minimiser; replay files"}],
         "checks": checks,
         "not_applicable": na,
-        "notes": "See DESIGN.md. Exit codes: 0 held (possibly KNOWN-FINDING lines), 1 VIOLATION, 2 harness error.",
+        "notes": "See DESIGN.md (section 10 = as built). Exit codes: 0 held (possibly KNOWN-FINDING lines), 1 VIOLATION property=<id> replay=<path>, 2 harness error. vcheck pins PYTHONHASHSEED=0 and TZ=UTC; VERIF_SEED, VERIF_TIER, VERIF_BUDGET_S, VERIF_RUNS, VERIF_WORKERS, VERIF_REPO are honoured. ./vcheck selftest = determinism + stub fidelity; ./vcheck sensitivity = 51 own mutants + 62 sub-agent changes with replay verification (last full run: AUDIT.md).",
     }
     json.dump(m, open(os.path.join(HERE, "MANIFEST.json"), "w"), indent=1)
 
